@@ -133,4 +133,7 @@ def stackScan : List RtVal → Option RtVal
   | [] => none
   | v :: vs => if vs.all (fun w => w == v) then some ⟨v.e, (vs.length + 1) :: v.s⟩ else none
 
+/-- Column `j` of the per-iteration scan slices (what scan output `j` stacks). -/
+def column (scs : List (List RtVal)) (j : Nat) : List RtVal := scs.filterMap (fun row => row[j]?)
+
 end C06M
